@@ -20,6 +20,17 @@ def code(*a):
 KEPT = (1.7, -2.0, 0.75)
 
 
+def vcode(*a):
+    """vector value of the recording function: every component depends on another argument"""
+    return (1.5 + 0.1 * a[0], -2.0 + (0.01 * a[1] if len(a) > 1 else 0.0), 0.75 + (0.001 * a[2] if len(a) > 2 else 0.0))
+
+
+def exact_grid(lo, hi, n):
+    """n evenly spaced points from lo to hi inclusive (lo alone for n = 1), from exact rationals"""
+    lo, hi = Fraction(lo), Fraction(hi)
+    return [float(lo + i * (hi - lo) / (n - 1)) if n > 1 else float(lo) for i in range(n)]
+
+
 class Rec:
     def __init__(self, vector=False, keep=False):
         self.calls = []
@@ -35,7 +46,7 @@ class Rec:
         if self.kept is not None:
             return self.kept
         if self.vector:
-            return Vector3D(1.5 + 0.1 * a[0], -2.0, 0.75)
+            return Vector3D(*vcode(*a))
         return code(*a)
 
 
@@ -206,14 +217,17 @@ def _samplers(c, e, D, bad):
         return
     xr, yr, zr = (-0.5, 0.7), (1.0, 2.0), (-3.0, -1.0)
     n, m = c["n"], c["m"]
-    ex = [float(q) for q in np.linspace(xr[0], xr[1], n)]
-    ey = [float(q) for q in np.linspace(yr[0], yr[1], m)]
+    ex, ey = exact_grid(xr[0], xr[1], n), exact_grid(yr[0], yr[1], m)
+
+    def veq(got, want):
+        return len(got) == 3 and all(abs(float(g) - w) <= 1e-15 for g, w in zip(got, want))
     if w == "sample2d":
         r = Rec()
         x, y, s = S.sample2d(r, (xr[0], xr[1], n), (yr[0], yr[1], m))
-        if s.shape != (n, m) or list(x) != list(ex) or list(y) != list(ey):
-            bad("grid-or-shape-differs", f"shape {s.shape}")
+        if s.shape != (n, m) or not _argsclose(list(x), ex, 1e-15) or not _argsclose(list(y), ey, 1e-15):
+            bad("grid-or-shape-differs", f"shape {s.shape}; x {list(x)} vs {ex}; y {list(y)} vs {ey}")
             return
+        ex, ey = [float(q) for q in x], [float(q) for q in y]
         for i in range(n):
             for j in range(m):
                 if s[i, j] != code(ex[i], ey[j]):
@@ -228,16 +242,24 @@ def _samplers(c, e, D, bad):
             bad("points-sampler-differs", "sample2d_points")
         rv = Rec(True)
         vx, vy, vs = S.samplevector2d(rv, (xr[0], xr[1], n), (yr[0], yr[1], m))
-        if vs.shape != (n, m, 3) or any(abs(vs[i, j, 0] - (1.5 + 0.1 * ex[i])) > 1e-15 for i in range(n) for j in range(m)):
+        if vs.shape != (n, m, 3) or not _argsclose(list(vx), ex, 1e-15) or not _argsclose(list(vy), ey, 1e-15) \
+                or any(not veq(vs[i, j], vcode(ex[i], ey[j])) for i in range(n) for j in range(m)):
             bad("vector-sampler-differs", "samplevector2d")
+        vg = S.samplevector2d_grid(Rec(True), np.array(ex), np.array(ey))
+        if vg.shape != (n, m, 3) or any(not veq(vg[i, j], vcode(ex[i], ey[j])) for i in range(n) for j in range(m)):
+            bad("vector-grid-sampler-differs", "samplevector2d_grid")
+        vp = S.samplevector2d_points(Rec(True), pts)
+        if vp.shape != (len(pts), 3) or any(not veq(vp[q], vcode(float(a), float(b))) for q, (a, b) in enumerate(pts)):
+            bad("vector-points-sampler-differs", "samplevector2d_points")
         return
     k = c["k"]
-    ez = [float(q) for q in np.linspace(zr[0], zr[1], k)]
+    ez = exact_grid(zr[0], zr[1], k)
     r = Rec()
     x, y, z, s = S.sample3d(r, (xr[0], xr[1], n), (yr[0], yr[1], m), (zr[0], zr[1], k))
-    if s.shape != (n, m, k) or list(x) != list(ex) or list(y) != list(ey) or list(z) != list(ez):
-        bad("grid-or-shape-differs", f"shape {s.shape}")
+    if s.shape != (n, m, k) or not _argsclose(list(x), ex, 1e-15) or not _argsclose(list(y), ey, 1e-15) or not _argsclose(list(z), ez, 1e-15):
+        bad("grid-or-shape-differs", f"shape {s.shape}; {list(x)} {list(y)} {list(z)} vs {ex} {ey} {ez}")
         return
+    ex, ey, ez = [float(q) for q in x], [float(q) for q in y], [float(q) for q in z]
     for i in range(n):
         for j in range(m):
             for l in range(k):
@@ -254,8 +276,15 @@ def _samplers(c, e, D, bad):
     rv = Rec(True)
     out = S.samplevector3d(rv, (xr[0], xr[1], n), (yr[0], yr[1], m), (zr[0], zr[1], k))
     vs = out[3]
-    if vs.shape != (n, m, k, 3) or any(abs(vs[i, j, l, 0] - (1.5 + 0.1 * ex[i])) > 1e-15 for i in range(n) for j in range(m) for l in range(k)):
+    if vs.shape != (n, m, k, 3) or not _argsclose(list(out[0]), ex, 1e-15) or not _argsclose(list(out[1]), ey, 1e-15) or not _argsclose(list(out[2]), ez, 1e-15) \
+            or any(not veq(vs[i, j, l], vcode(ex[i], ey[j], ez[l])) for i in range(n) for j in range(m) for l in range(k)):
         bad("vector-sampler-differs", "samplevector3d")
+    vg = S.samplevector3d_grid(Rec(True), np.array(ex), np.array(ey), np.array(ez))
+    if vg.shape != (n, m, k, 3) or any(not veq(vg[i, j, l], vcode(ex[i], ey[j], ez[l])) for i in range(n) for j in range(m) for l in range(k)):
+        bad("vector-grid-sampler-differs", "samplevector3d_grid")
+    vp = S.samplevector3d_points(Rec(True), pts)
+    if vp.shape != (len(pts), 3) or any(not veq(vp[q], vcode(float(a), float(b), float(cc))) for q, (a, b, cc) in enumerate(pts)):
+        bad("vector-points-sampler-differs", "samplevector3d_points")
 
 
 CFG = """SPECIFICATION Spec
